@@ -1283,7 +1283,7 @@ _UFS = {}
 
 def UF(name):
     if name not in _UFS:
-        _UFS[name] = z3.Function(name, z3.RealSort(), z3.RealSort())
+        _UFS[name] = z3.Function("uf_" + name, z3.RealSort(), z3.RealSort())      # prefix: cvc5 reserves sqrt, exp, sin, ...
     return _UFS[name]
 
 
@@ -1611,6 +1611,30 @@ class _Optimize:
     linear_sum_assignment = staticmethod(m_linear_sum_assignment)
 
 
+class _Delayed:
+    def __init__(self, f):
+        self.f = f
+
+    def __call__(self, *a, **k):
+        return ("delayed", self.f, a, k)
+
+
+class _Parallel:
+    """D17: joblib.Parallel(n_jobs)(delayed(f)(*a, **k) for ...) == [f(*a, **k) for ...], in order"""
+
+    def __init__(self, n_jobs=None, **kw):
+        self.n_jobs = n_jobs
+
+    def __call__(self, tasks):
+        e = cur()
+        out = []
+        for t in e.as_iterable(tasks):
+            if not (isinstance(t, tuple) and len(t) == 4 and t[0] == "delayed"):
+                raise Unsupported("Parallel over non-delayed items")
+            out.append(e.call(t[1], list(t[2]), dict(t[3])))
+        return out
+
+
 class Opaque:
     """stand-in for a library object we never call into during interpretation"""
 
@@ -1718,6 +1742,8 @@ def _from_model(eng, modname, name):
         "bisect.bisect_left": m_bisect_left,
         "hopcroftkarp.HopcroftKarp": HopcroftKarpModel,
         "sklearn.metrics": _Metrics(),
+        "joblib.Parallel": _Parallel,
+        "joblib.delayed": _Delayed,
         "scipy.optimize": _Optimize(),
         "operator.itemgetter": _Operator().itemgetter,
         "operator.attrgetter": _Operator().attrgetter,
